@@ -1,15 +1,16 @@
 // corpus.cpp — see corpus.hpp
 #include "corpus.hpp"
+#include "hdrmap.hpp"
 
 std::string Recipe::key() const {
-  return fmt("ch=%d rate=%ld q=%.4f mode=%d nom=%ld n=%lld sig=%d seed=%llu nc=%d bs64=%d cut=%d mute=%d trim=%d tk=%d", ch, rate, q, mode, nominal, (long long)n, sig, (unsigned long long)seed, ncomm, bs64, cut, mute, trim, tk);
+  return fmt("ch=%d rate=%ld q=%.4f mode=%d nom=%ld n=%lld sig=%d seed=%llu nc=%d bs64=%d cut=%d mute=%d trim=%d tk=%d m3=%d", ch, rate, q, mode, nominal, (long long)n, sig, (unsigned long long)seed, ncomm, bs64, cut, mute, trim, tk, modes3);
 }
 void Recipe::to(Rec &r) const {
-  r.set("ch", ch).set("rate", rate).setf("q", q).set("mode", mode).set("nom", nominal).set("n", n).set("sig", sig).setu("seed", seed).set("nc", ncomm).set("bs64", bs64); if (cut) r.set("cut", cut); if (mute) r.set("mute", mute); if (trim) r.set("trim", trim).set("tk", tk);
+  r.set("ch", ch).set("rate", rate).setf("q", q).set("mode", mode).set("nom", nominal).set("n", n).set("sig", sig).setu("seed", seed).set("nc", ncomm).set("bs64", bs64); if (cut) r.set("cut", cut); if (mute) r.set("mute", mute); if (trim) r.set("trim", trim).set("tk", tk); if (modes3) r.set("modes3", modes3);
 }
 Recipe Recipe::from(const Rec &r) {
   Recipe x; x.ch = (int)r.i("ch", 2); x.rate = r.i("rate", 44100); x.q = r.f("q", 0.4); x.mode = (int)r.i("mode", 0); x.nominal = r.i("nom", 0);
-  x.n = r.i("n", 20000); x.sig = (int)r.i("sig", 0); x.seed = r.u("seed", 1); x.ncomm = (int)r.i("nc", 2); x.bs64 = (int)r.i("bs64", 0); x.cut = (int)r.i("cut", 0); x.mute = (int)r.i("mute", 0); x.trim = (int)r.i("trim", 0); x.tk = (int)r.i("tk", 3);
+  x.n = r.i("n", 20000); x.sig = (int)r.i("sig", 0); x.seed = r.u("seed", 1); x.ncomm = (int)r.i("nc", 2); x.bs64 = (int)r.i("bs64", 0); x.cut = (int)r.i("cut", 0); x.mute = (int)r.i("mute", 0); x.trim = (int)r.i("trim", 0); x.tk = (int)r.i("tk", 3); x.modes3 = (int)r.i("modes3", 0);
   return x;
 }
 
@@ -125,6 +126,30 @@ static void encode_link(Link &l) {
     }
   }
   vorbis_block_clear(&vb); vorbis_dsp_clear(&vd); vorbis_comment_clear(&vc); vorbis_info_clear(&vi);
+  if (r.modes3) {
+    // bit-level rewrite (Vorbis packs LSB first): setup header gets modes.count+1 and a third mode entry equal to the second; every audio
+    // packet's mode field grows from one bit to two, and every other long-block packet selects mode 2 instead of mode 1
+    auto tobits = [](const std::vector<uint8_t> &d) { std::vector<uint8_t> b(d.size() * 8); for (size_t i = 0; i < b.size(); i++) b[i] = (d[i >> 3] >> (i & 7)) & 1; return b; };
+    auto tobytes = [](const std::vector<uint8_t> &b) { std::vector<uint8_t> d((b.size() + 7) / 8, 0); for (size_t i = 0; i < b.size(); i++) if (b[i]) d[i >> 3] |= (uint8_t)(1u << (i & 7)); return d; };
+    std::vector<HdrField> f = map_setup_header(l.hdr[2].data, r.ch); const HdrField *cnt = nullptr, *fr = nullptr; std::vector<const HdrField *> mm;
+    for (auto &x : f) { if (!strcmp(x.tag, "modes.count")) cnt = &x; if (!strcmp(x.tag, "setup.framing")) fr = &x; if (!strcmp(x.tag, "mode.blockflag")) mm.push_back(&x); }
+    if (!cnt || !fr || mm.size() != 2 || hm_get(l.hdr[2].data, *cnt) != 1 || hm_get(l.hdr[2].data, *mm[0]) != 0 || hm_get(l.hdr[2].data, *mm[1]) != 1) { l.ok = false; return; }
+    std::vector<uint8_t> hb = tobits(l.hdr[2].data); hb.resize(fr->bit);                       // everything before the framing bit
+    std::vector<uint8_t> m2(hb.begin() + (long)mm[1]->bit, hb.begin() + (long)mm[1]->bit + 41); // blockflag(1) windowtype(16) transformtype(16) mapping(8)
+    std::vector<uint8_t> m1(hb.begin() + (long)mm[0]->bit, hb.begin() + (long)mm[0]->bit + 41);
+    bool cross = r.modes3 == 2;                                                                // four modes: 2 = short blocks on the long mode's mapping, 3 = long blocks on the short mode's mapping
+    if (cross) { std::vector<uint8_t> a = m2, b = m1; a[0] = 0; b[0] = 1; m2 = a; m1 = b; }      // (legal: modes, mappings, floors and residues may be shared freely; the audio of relabelled packets is noise, which no decoder-side oracle minds)
+    hb[cnt->bit] = cross ? 1 : 0; hb[cnt->bit + 1] = 1;                                        // modes.count field: 1 -> 2 (three modes) or 3 (four)
+    hb.insert(hb.end(), m2.begin(), m2.end()); if (cross) hb.insert(hb.end(), m1.begin(), m1.end()); hb.push_back(1);   // new modes, framing bit
+    l.hdr[2].data = tobytes(hb);
+    int nlong = 0, nshort = 0;
+    for (auto &p : l.audio) { std::vector<uint8_t> b = tobits(p.data); if (b.size() < 2) continue; size_t used = b.size(); while (used > 2 && !b[used - 1]) used--;   // trailing zero bits are padding
+      b.resize(used); int mode = b[1]; b.insert(b.begin() + 2, 0);                              // type(1) mode(now 2 bits)
+      if (!cross) { if (mode == 1 && (nlong++ & 1)) { b[1] = 0; b[2] = 1; } }                     // mode 2 == mode 1
+      else if (mode == 1) { if (nlong++ % 3 == 2) { b[1] = 1; b[2] = 1; } }                       // mode 3: long block, short mapping
+      else if (nshort++ % 3 == 1) { b[1] = 0; b[2] = 1; }                                       // mode 2: short block, long mapping
+      p.data = tobytes(b); }
+  }
   if (r.cut > 0) { size_t c = std::min<size_t>((size_t)r.cut, l.audio.size() > 3 ? l.audio.size() - 3 : 0); l.audio.erase(l.audio.begin(), l.audio.begin() + c); }
   if (r.trim > 0) {
     size_t tk = (size_t)std::max(2, r.tk);
